@@ -16,10 +16,11 @@ import (
 // run "undecided" — never guessed.
 
 type AV struct {
-	Kind string // "const" | "nil" | "nonnil" | "sym" | "unknown"
+	Kind string // "const" | "nil" | "nonnil" | "sym" | "tuple" | "unknown"
 	C    constant.Value
 	Sym  string
 	Neg  bool // for sym: arithmetic negation
+	Tup  []AV
 }
 
 func avConst(c constant.Value) AV { return AV{Kind: "const", C: c} }
@@ -42,6 +43,7 @@ func (a AV) String() string {
 type Oracle func(v ssa.Value) (AV, bool)
 
 type decideRun struct {
+	depth  int
 	fn     *ssa.Function
 	oracle Oracle
 	pred   *ssa.BasicBlock
@@ -155,6 +157,41 @@ func (r *decideRun) eval1(v ssa.Value) AV {
 		return r.eval(x.X)
 	case *ssa.ChangeType:
 		return r.eval(x.X)
+	case *ssa.Extract:
+		t := r.eval(x.Tuple)
+		if t.Kind == "tuple" && x.Index < len(t.Tup) {
+			return t.Tup[x.Index]
+		}
+		return r.fail("extract from %s", t)
+	case *ssa.Call:
+		// a small helper of the repository: decide it in place with the actual arguments
+		sc := x.Call.StaticCallee()
+		if sc == nil || sc.Blocks == nil || r.depth >= 3 {
+			return r.fail("call %s not covered by the oracle", x.Name())
+		}
+		args := make(map[ssa.Value]AV, len(sc.Params))
+		for i, prm := range sc.Params {
+			if i < len(x.Call.Args) {
+				a := r.eval(x.Call.Args[i])
+				if a.Kind == "unknown" {
+					r.err = ""
+					a = AV{Kind: "sym", Sym: "arg:" + x.Call.Args[i].Name()}
+				}
+				args[prm] = a
+			}
+		}
+		sub := &decideRun{fn: sc, depth: r.depth + 1, memo: map[ssa.Value]AV{}, oracle: func(v ssa.Value) (AV, bool) {
+			a, ok := args[v]
+			return a, ok
+		}}
+		res, err := sub.run()
+		if err != "" {
+			return r.fail("helper %s: %s", sc.Name(), err)
+		}
+		if len(res) == 1 {
+			return res[0]
+		}
+		return AV{Kind: "tuple", Tup: res}
 	case *ssa.MakeInterface:
 		a := r.eval(x.X)
 		if a.Kind == "nil" {
@@ -198,6 +235,11 @@ func avEqual(a, b AV) (bool, bool) {
 // Decide runs fn under the oracle and returns the abstract results of the return reached.
 func Decide(fn *ssa.Function, oracle Oracle, onCall func(ssa.CallInstruction)) ([]AV, string) {
 	r := &decideRun{fn: fn, oracle: oracle, memo: map[ssa.Value]AV{}, onCall: onCall}
+	return r.run()
+}
+
+func (r *decideRun) run() ([]AV, string) {
+	fn := r.fn
 	if len(fn.Blocks) == 0 {
 		return nil, "no body"
 	}
